@@ -310,13 +310,20 @@ func reflRecv(name string) (recv any, isStack bool) {
 		um := func(...any) ([]any, error) { return []any{"U"}, nil }
 		inner := stk.Or().Push("x", "y").SetUnmarshaler(um)
 		inner.SetReadOnly(true)
-		s := mk(stk.And()).Push(inner, stk.Cond("c", stk.Eq, inner)).
+		failing := stk.Cond("u", stk.Eq, "v").SetUnmarshaler(func(...any) ([]any, error) { return nil, errors.New("this unmarshaler fails") })
+		s := mk(stk.And()).Push(inner, stk.Cond("c", stk.Eq, inner), failing).
 			SetUnmarshaler(um).SetMarshaler(func(...any) error { return nil }).
 			SetEqualityPolicy(func(any, any) error { return nil }).
 			SetPresentationPolicy(func(...any) string { return "P" }).
 			SetValidityPolicy(func(...any) error { return nil })
 		s.SetReadOnly(true)
 		return s, true
+	case "failing-unmarshal":
+		// the default unmarshaler meets an element whose own unmarshaler fails: the
+		// error is the caller's to look at, not something to store in the receiver
+		bad := func(...any) ([]any, error) { return nil, errors.New("this unmarshaler fails") }
+		return mk(stk.And()).Push(stk.Cond("u", stk.Eq, "v").SetUnmarshaler(bad),
+			stk.Cond("w", stk.Eq, stk.Or().Push("p").SetUnmarshaler(bad))), true
 	case "encap-window":
 		// encapsulation schemes given as windows onto one caller-owned table:
 		// the spare capacity behind each is the caller's (and the neighbour's) memory
@@ -336,8 +343,9 @@ func reflRecv(name string) (recv any, isStack bool) {
 }
 
 var otherHandleParent stk.Stack
+var reinitProblem string
 
-var reflStackRecvs = []string{"and", "or-sym", "not", "list", "basic", "fifo-mutex", "empty", "policies", "encap-window", "closures-ro"}
+var reflStackRecvs = []string{"and", "or-sym", "not", "list", "basic", "fifo-mutex", "empty", "policies", "encap-window", "closures-ro", "failing-unmarshal"}
 var reflCondRecvs = []string{"cond", "cond-stack", "cond-init"}
 
 func isZeroVal(v reflect.Value) bool {
@@ -388,6 +396,23 @@ func runRefl(raw json.RawMessage) (res *Result, err error) {
 			recvAny, isStack = c, false
 		case "cond-init":
 			recvAny, isStack = reflRecv("cond-init")
+		case "cond-reinit":
+			// a used Condition (levels, logger, options, policies, error) given a fresh start:
+			// Init() must leave exactly what Init() on a zero Condition leaves
+			c := stk.Cond("k", stk.Eq, "v").SetLogLevel("ERROR", "DEBUG").SetLogger("stderr").SetID("old").SetParen(true).
+				SetValidityPolicy(func(...any) error { return nil }).SetEncap("'")
+			c.SetErr(errors.New("old"))
+			c.Init()
+			var pristine stk.Condition
+			pristine.Init()
+			got, _ := stk.VerifDump(c)["cfg"].(map[string]any)
+			want, _ := stk.VerifDump(pristine)["cfg"].(map[string]any)
+			if !reflect.DeepEqual(cleanCfg(got), cleanCfg(want)) {
+				gj, _ := json.Marshal(cleanCfg(got))
+				wj, _ := json.Marshal(cleanCfg(want))
+				reinitProblem = fmt.Sprintf("Init() on a used Condition left %s, a pristine Init() leaves %s", gj, wj)
+			}
+			recvAny, isStack = c, false
 		case "other-handle":
 			// the instance was released through ANOTHER handle; this handle keeps
 			// referring to it and must stay usable (Free only zeroes the handle it is called on)
@@ -424,6 +449,10 @@ func runRefl(raw json.RawMessage) (res *Result, err error) {
 		}
 	}
 	problems := []string{}
+	if reinitProblem != "" {
+		problems = append(problems, reinitProblem)
+		reinitProblem = ""
+	}
 	panicked := false
 	var records []any
 	dumpIgnoreErr = false
@@ -485,7 +514,7 @@ func runRefl(raw json.RawMessage) (res *Result, err error) {
 		case "zero":
 			skip := map[string]bool{"IsZero": true, "IsEmpty": true, "ID": true, "Kind": true, "Addr": true, "Valid": true, "IsEqual": true,
 				"Marshal": true, "Init": true, "String": false}
-			if in.Recv == "cond-init" || in.Recv == "other-handle" || in.Recv == "other-handle-cond" {
+			if in.Recv == "cond-init" || in.Recv == "cond-reinit" || in.Recv == "other-handle" || in.Recv == "other-handle-cond" {
 				break // an initialised instance: only panic-freedom is required
 			}
 			if !skip[c.Method] {
@@ -546,7 +575,7 @@ func runRefl(raw json.RawMessage) (res *Result, err error) {
 				_, _ = otherHandleParent.Traverse(0, 0)
 			}()
 		}
-		if in.Recv != "cond-init" && in.Recv != "nilaux" && in.Recv != "other-handle" && in.Recv != "other-handle-cond" {
+		if in.Recv != "cond-init" && in.Recv != "cond-reinit" && in.Recv != "nilaux" && in.Recv != "other-handle" && in.Recv != "other-handle-cond" {
 			stillZero := true
 			func() {
 				defer func() {
@@ -765,7 +794,7 @@ func genZeroReflect(ctx *Ctx, emit func(any, string)) {
 			}
 		}
 	}
-	for _, rn := range []string{"zcond", "freedcond", "freedpolcond", "cond-init", "other-handle-cond"} {
+	for _, rn := range []string{"zcond", "freedcond", "freedpolcond", "cond-init", "cond-reinit", "other-handle-cond"} {
 		for _, m := range cm {
 			for v := 0; v < nVariants(stk.Condition{}, m); v++ {
 				emit(ReflInput{Mode: "zero", Recv: rn, Calls: []RCall{{m, v}}}, "exhaustive")
